@@ -33,6 +33,7 @@ import Kanzi.Drv.BWTS
 import Kanzi.Drv.ImageGen2
 import Kanzi.Drv.EXE
 import Kanzi.Drv.BWT
+import Kanzi.Drv.ROLZ
 
 open Kanzi
 
@@ -215,5 +216,6 @@ def main (args : List String) : IO UInt32 := do
   | ["imagegen2"] => loop stdin stdout Kanzi.Drv.imagegen2; return 0
   | ["exe"] => loop stdin stdout Kanzi.Drv.exe; return 0
   | ["bwt"] => Kanzi.Drv.bwtLoop stdin stdout; return 0
+  | ["rolz"] => loop stdin stdout Kanzi.Drv.rolz; return 0
   | ["image"] => loop stdin stdout Kanzi.Drv.image; return 0
   | _ => IO.eprintln "usage: kmodel <norm>"; return 2
